@@ -1,20 +1,18 @@
 import Mp4ff.Driver.C13
 import Mp4ff.Driver.C14
+import Mp4ff.Driver.C17
 import Mp4ff.Driver.C18
 /-! `mp4ffdrv`: one request per input line, one response per output line. -/
 open Mp4ff.Driver
+
+def dispatchers : List (String → List String → Option String) :=
+  [C13.dispatch, C14.dispatch, C17.dispatch, C18.dispatch]
 
 def respond (line : String) : String :=
   match splitWs line with
   | [] => ""
   | op :: args =>
-    match C13.dispatch op args with
-    | some r => r
-    | none =>
-    match C14.dispatch op args with
-    | some r => r
-    | none =>
-    match C18.dispatch op args with
+    match dispatchers.findSome? (fun d => d op args) with
     | some r => r
     | none => "bad-op"
 
